@@ -15,13 +15,14 @@ theorem tokens_shift' (E : Env) (n : Bool) (pre X : List Rune) (hc : Clean (scan
   unfold tokenizeRunes scanRunes scanFrom
   rw [List.foldl_append]
 
-theorem clean_after_plain_nl' (E : Env) (s : State) (hd : s.deferredEOL = false) (hw : s.deferredWord = false)
+theorem clean_after_plain_nl' (E : Env) (s : State) (hd : s.deferredEOL = false) (_hw : s.deferredWord = false)
     (hh : s.obuf.getLast? ≠ some hyphen) : Clean (step E true s nl) := by
   rw [step_eq]
   simp only [if_true]
   unfold nlStep Clean
   simp only [hh, and_false, if_false]
-  refine ⟨?_, trivial, hd, hw⟩
+  -- the plain-newline branch now clears `deferredWord` itself, so `_hw` is no longer needed
+  refine ⟨?_, trivial, hd, trivial⟩
   by_cases h2 : s.obuf = []
   · simp [h2]
   · simp [h2]
